@@ -127,6 +127,9 @@ def case_single(pd, theta, phi, p, T1, T2):
         for c in range(len(fs)):
             inj = Inject(w, c)
             caps = capture(call, inj)
+            if len(caps) < 2:
+                return [f"single-qubit gate with p={p!r}, T1={T1!r}, T2={T2!r}: the sample was returned without exponentiating a noise generator "
+                        f"(scipy.linalg.expm was called {len(caps)} time(s)); the {name} term (strength {st:.3e}) cannot be part of it"]
             Ms.append(caps[1] / 1j)
             cov = dict(inj.covs)[w]
         err = 0.0
